@@ -14,6 +14,9 @@
 //	sw2    flow rules of `sw2` switch between lists that never reject: every request must pass;
 //	fixedB `fixedB` has one rejecting flow rule loaded once; churn on other resources must never let a request pass;
 //	fixedP `fixedP` has no rule in any module: every request must pass, whatever is churned elsewhere.
+//	ft-*   four goroutines touch a fresh resource name at the same moment (one of them also through
+//	       stat.GetOrCreateResourceNode, like a rule loader): afterwards stat.GetResourceNode(name) must account for
+//	       every passed request (concurrent first users share one node — no lost insert).
 //
 // The last line on stdout is `RESULT <json>`.
 package main
@@ -496,6 +499,52 @@ func main() {
 			maybeYield(r)
 		})
 	}
+
+	// ---- first touch: concurrent first users of a fresh resource name must share one statistics node ----------------
+	ftRound := 0
+	spawn("firsttouch", func(r *rand.Rand) {
+		if ftRound >= 3000 {
+			time.Sleep(time.Millisecond)
+			return
+		}
+		ftRound++
+		name := fmt.Sprintf("ft-%d-%d", *seed, ftRound)
+		const k = 4
+		var fw sync.WaitGroup
+		start := make(chan struct{})
+		var passed int64
+		for g := 0; g < k; g++ {
+			fw.Add(1)
+			go func(g int) {
+				defer fw.Done()
+				<-start
+				guard("firsttouch", func() {
+					if g == 0 && ftRound%2 == 0 {
+						_ = stat.GetOrCreateResourceNode(name, base.ResTypeCommon) // what a rule loader does (generateStatFor)
+					}
+					e, b := sentinel.Entry(name, sentinel.WithTrafficType(base.Outbound))
+					if b != nil {
+						bad("firsttouch %s: blocked (%v) although it has no rule", name, b.Error())
+						return
+					}
+					atomic.AddInt64(&passed, 1)
+					e.Exit()
+				})
+			}(g)
+		}
+		close(start)
+		fw.Wait()
+		atomic.AddInt64(&res.OracleChecked, k)
+		count(res.Requests, "firsttouch")
+		n := stat.GetResourceNode(name)
+		if n == nil {
+			bad("firsttouch %s: no resource node after %d passed entries", name, passed)
+		} else if got := n.GetSum(base.MetricEventPass); got != atomic.LoadInt64(&passed) {
+			bad("firsttouch %s: the resource node accounts for %d of the %d passed first requests (concurrent first users got different nodes: lost insert)", name, got, passed)
+		} else {
+			count(res.Outcomes, "firsttouch:all-accounted")
+		}
+	})
 
 	// ---- run, stop, watchdog ----------------------------------------------------------------------------
 	t0 := time.Now()
